@@ -41,7 +41,9 @@ class X:
             return self.num(n.value)
         if isinstance(n, ast.BinOp) and isinstance(n.op, (ast.Add, ast.Sub, ast.Mult, ast.Div)):
             op = {ast.Add: '+', ast.Sub: '-', ast.Mult: '*', ast.Div: '/'}[type(n.op)]
-            return '(%s %s %s)%s' % (self.expr(n.left), op, self.expr(n.right), '%float' if self.t == 'F' else '')
+            if self.t == 'R':       # real target: every arithmetic result passes through `rnd` (identity = exact reals, or a rounding)
+                return '(rnd (%s %s %s))' % (self.expr(n.left), op, self.expr(n.right))
+            return '(%s %s %s)%%float' % (self.expr(n.left), op, self.expr(n.right))
         if isinstance(n, ast.Call) and ast.unparse(n.func) == 'np.abs' and len(n.args) == 1 and not n.keywords:
             return '(%s %s)' % ('Rabs' if self.t == 'R' else 'PrimFloat.abs', self.expr(n.args[0]))
         fail(n, 'unsupported expression in fit_quantile')
@@ -52,6 +54,12 @@ class X:
             return '(' + op.join(self.test(v) for v in n.values) + ')'
         if isinstance(n, ast.UnaryOp) and isinstance(n.op, ast.Not):
             return '(negb %s)' % self.test(n.operand)
+        if isinstance(n, ast.Compare) and len(n.ops) == 1 and isinstance(n.ops[0], ast.In) and isinstance(n.comparators[0], ast.Tuple) \
+                and n.comparators[0].elts:
+            # `x in (a, b)`: x == a or x == b  (float ==; the identity shortcut of `in` only matters for NaN)
+            ex = self.expr(n.left)
+            eq = 'fq_Reqb %s %s' if self.t == 'R' else 'PrimFloat.eqb %s %s'
+            return '(' + ' || '.join('(' + eq % (ex, self.expr(c)) + ')' for c in n.comparators[0].elts) + ')'
         if isinstance(n, ast.Compare) and len(n.ops) == 1:
             a, b = n.left, n.comparators[0]
             isint = all(isinstance(z, ast.Name) and z.id in self.ints or (isinstance(z, ast.Constant) and isinstance(z.value, int) and not isinstance(z.value, bool)) for z in (a, b)) \
@@ -138,9 +146,9 @@ def generate(repo):
     if not (isinstance(inits['n_iter'].value, int) and inits['n_iter'].value >= 0):
         fail(a_n, 'n_iter must start at a natural number')
     # ---- the loop
-    if not (isinstance(loop, ast.While) and not loop.orelse and len(loop.body) == 7):
-        fail(loop, 'bisection loop shape (while with 7 statements)')
-    s_ratio, s_break, s_branch, s_mid, s_set, s_fit, s_inc = loop.body
+    if not (isinstance(loop, ast.While) and not loop.orelse and len(loop.body) == 8):
+        fail(loop, 'bisection loop shape (while with 8 statements)')
+    s_ratio, s_break, s_branch, s_mid, s_stall, s_set, s_fit, s_inc = loop.body
     if ast.unparse(s_ratio) != 'ratio = self._get_quantile_ratio(X, y)':
         fail(s_ratio, 'ratio statement')
     if not (isinstance(s_break, ast.If) and not s_break.orelse and len(s_break.body) == 1 and isinstance(s_break.body[0], ast.Break)
@@ -151,6 +159,11 @@ def generate(repo):
     up, down = branch_assigns(s_branch.body, 'then'), branch_assigns(s_branch.orelse, 'else')
     if not (isinstance(s_mid, ast.Assign) and ast.unparse(s_mid.targets[0]) == 'expectile'):
         fail(s_mid, 'new expectile statement')
+    # the bracket cannot be halved any further: leave the loop BEFORE the new value is stored or fitted
+    if not (isinstance(s_stall, ast.If) and not s_stall.orelse and len(s_stall.body) == 1 and isinstance(s_stall.body[0], ast.Break)):
+        fail(s_stall, 'expected `if <test on expectile, min_, max_>: break` after the new expectile')
+    if {n.id for n in ast.walk(s_stall.test) if isinstance(n, ast.Name)} - {'expectile', 'min_', 'max_'}:
+        fail(s_stall, 'stall test may only mention expectile, min_, max_')
     if ast.unparse(s_set) != 'self.set_params(expectile=expectile)':
         fail(s_set, 'set_params statement')
     if ast.unparse(s_fit) != 'self.fit(X, y, weights=weights)':
@@ -187,16 +200,19 @@ def generate(repo):
     out = ['(* GENERATED by /verif/translator/gen_fitquantile.py from pygam/pygam.py (ExpectileGAM.fit_quantile, _get_quantile_ratio,',
            '   _validate_params) -- do not edit; regenerated on every check.  Statement order of the loop (matched, fail-closed):',
            '   ratio := oracle; if within_tol then break; branch on ratio/quantile assigning the bracket from self.expectile;',
-           '   expectile := new value; set_params(expectile); refit (validates the expectile first); n_iter += step. *)',
+           '   expectile := new value; if stall test then break; set_params(expectile); refit (validates the expectile first); n_iter += step.',
+           '   Real target: every arithmetic result passes through the parameter `rnd : R -> R` (identity = exact real arithmetic). *)',
            'From Coq Require Import Reals ZArith Bool PrimFloat.',
            'From PG Require Import Base.Ops.',
-           'Open Scope R_scope.', '']
+           'Open Scope R_scope.',
+           'Definition fq_Reqb (a b : R) : bool := if Req_EM_T a b then true else false.', '']
     for tgt, ty, sfx in (('R', 'R', ''), ('F', 'float', '_f')):
         nm = {'quantile': 'quantile', 'tol': 'tol', 'max_iter': 'max_iter', 'ratio': 'ratio', 'min_': 'min_', 'max_': 'max_',
-              'self.expectile': 'e', 'n_iter': 'n_iter', 'a': 'a', 'b': 'b', 'y_pred': 'y_pred', 'y': 'y'}
+              'self.expectile': 'e', 'n_iter': 'n_iter', 'a': 'a', 'b': 'b', 'y_pred': 'y_pred', 'y': 'y', 'expectile': 'e_new'}
+        rp = '(rnd : R -> R) ' if tgt == 'R' else ''
         x = X(tgt, nm, ints=('max_iter', 'n_iter'))
         out.append('(* ---- %s ---- *)' % ('real-number semantics' if tgt == 'R' else 'binary64 semantics (PrimFloat), same AST'))
-        out.append('Definition Gen_fq_within_tol%s (a b tol : %s) : bool := %s.' % (sfx, ty, x.test(wt.body[0].value)))
+        out.append('Definition Gen_fq_within_tol%s %s(a b tol : %s) : bool := %s.' % (sfx, rp, ty, x.test(wt.body[0].value)))
         out.append('(* fit_quantile raises ValueError when one of these holds *)')
         out.append('Definition Gen_fq_bad_quantile%s (quantile : %s) : bool := %s.' % (sfx, ty, x.test(t_q)))
         out.append('Definition Gen_fq_bad_tol%s (tol : %s) : bool := %s.' % (sfx, ty, x.test(t_tol)))
@@ -215,7 +231,9 @@ def generate(repo):
             sfx, ty, ty, ty, sfx,
             x.expr(up['min_']) if not isinstance(up['min_'], str) else up['min_'], x.expr(up['max_']) if not isinstance(up['max_'], str) else up['max_'],
             x.expr(down['min_']) if not isinstance(down['min_'], str) else down['min_'], x.expr(down['max_']) if not isinstance(down['max_'], str) else down['max_']))
-        out.append('Definition Gen_fq_new_expectile%s (min_ max_ : %s) : %s := %s.' % (sfx, ty, ty, x.expr(s_mid.value)))
+        out.append('Definition Gen_fq_new_expectile%s %s(min_ max_ : %s) : %s := %s.' % (sfx, rp, ty, ty, x.expr(s_mid.value)))
+        out.append('(* leave the loop without storing / fitting the new expectile when this holds ("the bracket cannot be halved any further") *)')
+        out.append('Definition Gen_fq_stall%s (e_new min_ max_ : %s) : bool := %s.' % (sfx, ty, x.test(s_stall.test)))
         out.append('(* ExpectileGAM._validate_params raises ValueError when this holds (first statement of every fit) *)')
         out.append('Definition Gen_expectile_out_of_range%s (e : %s) : bool := %s.' % (sfx, ty, x.test(rng_test)))
         out.append('(* _get_quantile_ratio: mean over the training rows of this indicator *)')
